@@ -132,7 +132,7 @@ def refs_disk(req):
             for l in g.stdout.decode("latin1").splitlines():
                 n, o, s = (l.split(" ") + ["", ""])[:3]
                 lines.append(hx(n.encode("latin1")) + ("=Y" + hx(s.encode("latin1")) if s else "=S" + hx(o.encode())))
-            hs = _git(["symbolic-ref", "-q", "HEAD"], path)
+            hs = _git(["symbolic-ref", "-q", "--no-recurse", "HEAD"], path)     # (without --no-recurse git follows the whole chain)
             if hs.returncode == 0:
                 lines.append(hx(b"HEAD") + "=Y" + hx(hs.stdout.strip()))
             else:
